@@ -37,7 +37,7 @@ def plan(tier):
 
 
 def floors(tier):
-    return {"distinct_nontrivial": 300, "members_compared": 2000, "forms_seen": 3, "classes_seen": 20, "settings_roundtrips": 300}
+    return {"distinct_nontrivial": 300, "members_compared": 2000, "forms_seen": 4, "classes_seen": 20, "settings_roundtrips": 300}
 
 
 def tf_name(s):
@@ -69,7 +69,7 @@ def gen_case(rng, tier, idx):
         if c["kw"].get("timeframe") and not fill and not ha and rng.random() < 0.2:
             c["kw"]["timeframe_fill"] = True  # a member's own flag: inside a Hexital the Hexital-level setting is the effective one
             member_fill = True
-        members.append({"cfg": c, "form": rng.choice(["object", "dict", "settings", "settings"])})
+        members.append({"cfg": c, "form": rng.choice(["object", "dict", "settings", "settings", "settings_used"])})
     if member_fill:
         rows = streams.make_rows(rng, n, "walk", step, "gaps", tf_s or unit * 3, max_gap_buckets=8)
     lifespan = None
@@ -137,6 +137,12 @@ def run_case(case):
             entries.append(ref)
         elif m["form"] == "dict":
             entries.append(configs.as_dict_form(cfg))
+        elif m["form"] == "settings_used":
+            # settings read from an indicator that has already been calculated (helpers exist, cursor moved): still a valid recipe
+            used = configs.build(cfg, candles=rows_to_candles(rows[:12]))
+            used.calculate()
+            entries.append(copy.deepcopy(used.settings))
+            stats["settings_roundtrips"] = stats.get("settings_roundtrips", 0) + 1
         else:
             entries.append(copy.deepcopy(ref.settings))
             stats["settings_roundtrips"] = stats.get("settings_roundtrips", 0) + 1
@@ -152,7 +158,7 @@ def run_case(case):
     try:
         hx = Hexital("h", rows_to_candles(rows[:pre]), entries, **hkw)
     except Exception as e:
-        bad = "settings" if "settings" in forms else ("dict" if "dict" in forms else "object")
+        bad = "settings" if any(f.startswith("settings") for f in forms) else ("dict" if "dict" in forms else "object")
         V("registration", f"C08|construction-raises|{bad}|{type(e).__name__}", f"Hexital(...) raised {e!r}; entries={short(entries, 400)}")
         return {"violations": viol, "nontrivial": True, "stats": stats}
     # raw view of the default manager right after construction (used only to classify a known mechanism, see below)
